@@ -18,10 +18,11 @@ META = dict(
         quick="one centre, one-primitive shells (s, p, Cartesian d/f, pure d/f/g), orbitals = the normalised basis functions "
               "themselves; encodings: standard, ORCA, PSI4 <= 1.0, Turbomole, CFOUR 2.1, unnormalised contractions, "
               "PSI4 <= 1.3.2, and a corrupted one (factor 2 on one shell); exponents symbolic (all reals in [0.2, 30]) for "
-              "the s/p cases, from a rational grid otherwise; norm_threshold in {1e-5, 1e-4, 1e-3}; restricted and "
+              "the s/p cases, from a rational grid otherwise; norm_threshold 1e-4; restricted and "
               "unrestricted; the real _fix_molden_from_buggy_codes (with compute_overlap and the _fix_* helpers) runs on "
               "the terms; Molden and Molekel readers share this function",
-        thorough="adds h shells, two-primitive shells and symbolic exponents for d shells"),
+        thorough="adds the ORCA encoding with s and p shells together, both exponents symbolic, and the thresholds 1e-5 / 1e-3 for "
+                 "every grid case"),
     outside=["multi-centre molecules and contracted shells through the cascade (exp of symbolic distances in branch "
              "conditions)", "the vendor table itself is transcribed from the comments and upstream issues quoted in molden.py - "
              "there is no independent public specification of these deviations", "unit/kind tags of the file header "
